@@ -135,6 +135,43 @@ partial def valOfJson (j : Json) : Except String Val := do
     throw "bad value object"
   | _ => throw "bad value"
 
+/-- XML tree: [tag, text|null, [children]] -/
+partial def xmlOfJson (j : Json) : Except String Xml := do
+  let a ← j.getArr?
+  if h : a.size = 3 then
+    let tag ← a[0].getStr?
+    let text ← if a[1].isNull then pure none else do pure (some (← a[1].getStr?))
+    let cs ← (← a[2].getArr?).toList.mapM xmlOfJson
+    pure (.node tag text cs)
+  else throw "bad xml node"
+
+def xmlMapOfJson (j : Json) : Except String (List (String × Xml)) := do
+  let a ← j.getArr?
+  a.toList.mapM fun p => do
+    let q ← p.getArr?
+    if h : q.size = 2 then
+      let n ← q[0].getStr?
+      let x ← xmlOfJson q[1]
+      pure (n, x)
+    else throw "bad xml map entry"
+
+def propToJson (p : PropDef) : Json :=
+  Json.arr #[p.name, p.size, tyToJson p.ty, p.flags]
+
+def methodToJson (m : MethodDef) : Json :=
+  Json.mkObj [("name", m.name), ("size", m.size), ("header", m.header), ("exposed", m.exposed),
+    ("args", Json.arr (m.args.map fun (n, t) =>
+      Json.arr #[match n with | some s => (s : Json) | none => Json.null, tyToJson t]).toArray)]
+
+def viewToJson (v : EntityView) : Json :=
+  Json.mkObj [("name", v.name),
+    ("methods", Json.arr (v.methods.map methodToJson).toArray),
+    ("clientProps", Json.arr (v.clientProps.map propToJson).toArray),
+    ("internal", Json.arr (v.clientPropsInternal.map propToJson).toArray),
+    ("cell", Json.arr (v.cellProps.map propToJson).toArray),
+    ("base", Json.arr (v.baseProps.map propToJson).toArray),
+    ("volatile", Json.arr (v.volatile.map fun (s : String) => (s : Json)).toArray)]
+
 def errJson (e : Err) : Json := Json.mkObj [("err", e.name)]
 
 end Driver
